@@ -50,7 +50,7 @@ type Knobs struct {
 	NoFlusher       bool          // the handler's ResponseWriter is not an http.Flusher (a wrapping middleware hides it)
 	ArriveLag       time.Duration // the request reaches the handler this much (fake clock) after Do sent it
 	H1LateClose     bool          // HTTP/1.1 over TLS: on cancellation the server hears of it before the client's socket is closed (see runWatcher)
-	OpaqueDoErr     bool          // the HTTPClient reports failures in its own words, without wrapping the cause
+	OpaqueDoErr     int           // the HTTPClient reports a request that failed because the context ended in its own words: 1 text only, 2 wrapping the other context error, 3 a stream-reset text (0: as net/http does)
 	H1LateCloseSlow bool          // ... and the socket\'s close is slow in coming
 	H1Close         bool          // HTTP/1.1: the server closes the connection when request bytes keep coming after its answer (see runPump)
 	UpScript        []int         // scripted read sizes (enumeration worlds); nil: use UpFrag
@@ -366,8 +366,21 @@ func urlErr(req *http.Request, err error) error {
 // OpaqueDoErr knob the HTTPClient is a middleware that reports failures in its
 // own words (formatted with %v): the cause is in the text, not in the chain.
 func (c *Call) ctxDoErr(req *http.Request, err error) error {
-	if c.K.OpaqueDoErr {
+	switch c.K.OpaqueDoErr {
+	case 1:
 		return fmt.Errorf("upstream request failed: %v", urlErr(req, err))
+	case 2:
+		// ... or in terms of its own machinery: a client that runs the request
+		// under a context of its own reports that one's end
+		other := context.Canceled
+		if errors.Is(err, context.Canceled) {
+			other = context.DeadlineExceeded
+		}
+		return fmt.Errorf("upstream request failed: %w", urlErr(req, other))
+	case 3:
+		// ... or passes on what its connection pool said when it tore the
+		// stream down
+		return urlErr(req, errors.New("stream error: stream ID 7; REFUSED_STREAM; received from peer"))
 	}
 	return urlErr(req, err)
 }
